@@ -291,6 +291,60 @@ impl Handle {
     }
 }
 
+/// Read-only snapshot of the private storage states, only available with the `verif` feature.
+#[cfg(feature = "verif")]
+#[derive(Debug, Clone, Default)]
+pub struct VerifDump {
+    /// KeyDir entries as `(key, file id, position, length)`.
+    pub keydir: Vec<(Bytes, u64, u64, u64)>,
+    /// Per-file statistics as `(file id, live keys, dead keys, dead bytes)`.
+    pub stats: Vec<(u64, u64, u64, u64)>,
+    /// ID of the currently active file.
+    pub active_fileid: u64,
+    /// Number of bytes written to the currently active file.
+    pub written_bytes: u64,
+    /// Number of readers currently in the readers queue.
+    pub readers_len: usize,
+    /// Capacity of the readers queue.
+    pub readers_capacity: usize,
+}
+
+#[cfg(feature = "verif")]
+impl Handle {
+    /// Run one merge pass now. Only available with the `verif` feature.
+    pub fn verif_merge(&self) -> Result<(), Error> {
+        self.merge()
+    }
+
+    /// Take a read-only snapshot of the private storage states. Only available with the
+    /// `verif` feature.
+    pub fn verif_dump(&self) -> VerifDump {
+        let writer = self.writer.lock();
+        let mut keydir: Vec<_> = self
+            .ctx
+            .keydir
+            .iter()
+            .map(|e| (e.key().clone(), e.fileid, e.pos, e.len))
+            .collect();
+        keydir.sort();
+        let mut stats: Vec<_> = self
+            .ctx
+            .stats
+            .iter()
+            .map(|e| (*e.key(), e.live_keys, e.dead_keys, e.dead_bytes))
+            .collect();
+        stats.sort_unstable();
+        VerifDump {
+            keydir,
+            stats,
+            active_fileid: writer.active_fileid,
+            written_bytes: writer.written_bytes,
+            readers_len: self.readers.len(),
+            readers_capacity: self.readers.capacity(),
+        }
+    }
+}
+
 impl Context {
     /// Return `true` if one of the merge trigger conditions is met.
     fn can_merge(&self) -> bool {
